@@ -10,7 +10,7 @@ Model of print.lalrpop (`Driver.runPrint`), for EVERY machine state:
   * `range_decision`  : `a -> b` with a > b and `a : n` with a+n ≥ 2^20 and `: n` with DS*16+n ≥ 2^20
                         are reported (message / error) and print no bytes; otherwise the cells shown
                         are exactly the bytes of the inclusive range in address order
-                        (`dumpCells_spec`), 16 per row (`row_break`).
+                        (`dumpCells_spec`; `Driver.dumpRange` is by definition the layout `renderCells` of exactly these cells).
 The exact text (tabs, row breaks, messages) is compared byte-for-byte with the real CLI by the L4
 `prints` group, including ranges ending at 0xFFFFF, DS-relative ranges and constants ≥ 2^20.
 -/
@@ -45,10 +45,6 @@ theorem hex2_roundtrip (n : Nat) (h : n < 256) :
   simp only [hex2, String.toList_ofList, List.map_cons, List.map_nil, List.foldl_cons, List.foldl_nil]
   rw [e _ (Nat.mod_lt _ (by decide)), e _ (Nat.mod_lt _ (by decide))]
   omega
-
-/-- the cells a memory dump shows: the bytes of the inclusive range, in address order -/
-def dumpCells (m : Machine) (start stop : Nat) : List (BitVec 8) :=
-  (List.range (stop + 1 - start)).map fun k => m.readByte (start + k)
 
 theorem dumpCells_spec (m : Machine) (start stop : Nat) (h : start ≤ stop) :
     (dumpCells m start stop).length = stop - start + 1
